@@ -310,7 +310,8 @@ KhPool == << <<"o", <<0>> \o Pay(20, 0, 5, 6)>>,         \* tz1, digest starting
              <<"o", <<1>> \o Pay(20, 9, 9, 0)>>,         \* tz2, digest ending 00
              <<"o", <<3>> \o Pay(20, 255, 255, 255)>>,   \* tz4
              <<"o", <<2>> \o Pay(20, 3, 1, 0)>> >>       \* tz3
-KeyPool == << <<"o", <<0>> \o Pay(32, 1, 2, 3)>>, <<"o", <<1>> \o Pay(33, 2, 0, 0)>>, <<"o", <<3>> \o Pay(48, 23, 1, 200)>>, <<"o", <<2>> \o Pay(33, 3, 200, 1)>> >>
+\* two keys of one curve (ordered by their bytes) come first
+KeyPool == << <<"o", <<0>> \o Pay(32, 1, 2, 3)>>, <<"o", <<0>> \o Pay(32, 1, 2, 4)>>, <<"o", <<1>> \o Pay(33, 2, 0, 0)>>, <<"o", <<3>> \o Pay(48, 23, 1, 200)>>, <<"o", <<2>> \o Pay(33, 3, 200, 1)>> >>
 SigPool == << <<"o", Pay(64, 1, 2, 3)>>, <<"o", Pay(96, 0, 255, 0)>> >>
 ChainPool == << <<"o", <<122, 6, 167, 112>>>>, <<"o", <<0, 0, 0, 0>>>> >>
 LamPool == << <<"lam", <<>>>>, <<"lam", << <<"DROP", 1>>, <<"UNIT">> >>>> >>
